@@ -80,7 +80,7 @@ def _gen_lib(rng, li, k, size, shared_roles, minor):
 
     db = {"file_identifier": rng.range(1, 2_000_000_000), "major": 3, "minor": minor,
           "library_name": ("lib%s" % L).encode(), "library_hash_name": ("h%03d" % (li * 7 + rng.below(7)))[:4].encode(),
-          "module_name": rng.choice([b"mod", b"mod", b"other"]),
+          "module_name": rng.choice([b"mod", b"mod", b"other", b""]),      # "" = a database generated without -module
           "functions": {}, "wrappers": {}, "types": {}, "manifests": {}, "elements": {}, "make_seqs": {}}
     for n, i in enumerate(W):
         tag = "%s.w%d" % (L, n)
